@@ -10,6 +10,7 @@
   The models below are those of the repaired code.
 -/
 import GoldilocksVerif.Lemmas.ConvF
+import GoldilocksVerif.Lemmas.BridgeConv
 
 namespace GoldilocksVerif.C15
 open GoldilocksVerif Model Gen.Scalar
@@ -73,5 +74,115 @@ theorem C15_toString_class (a b : BitVec 64) (radix : Nat) (h : den a = den b) :
 /-- non-vacuity: the witness of the former defect D1 (x = -p-1) is now covered -/
 example : (fromScalar (-(P : Int) - 1)).toNat = P - 1 := by
   rw [fromScalar_toNat]; decide
+
+/-! ## The conversions as TRANSLATED from goldilocks_base_field_tools.hpp (Gen/ConvGen.lean, regenerated on every run)
+
+  `mpz_class` arithmetic is translated to `Int` (`%` = `Int.tmod`); GMP's numeral parser / printer stay modelled (externs
+  `Mpz.ofString` = `parseInt`, `Mpz.getStr` = the digit loop `toDigitsR`); `int64_t` / `int32_t` are two's complement bit
+  vectors.  Bridge theorems: Lemmas/BridgeConv.lean.  See DESIGN.CONV.md. -/
+section generated
+open Gen.ConvGen BridgeConv
+
+/-- every translated conversion IS the hand model's function (for every fuel; `result` parameters: every previous value) -/
+theorem C15_generated_eq_model :
+    (∀ x, fromS64__ei x = fromS64 x) ∧ (∀ x, fromS64__ri x = fromS64 x) ∧
+    (∀ x, fromS32__ei x = fromS32 x) ∧ (∀ x, fromS32__ri x = fromS32 x) ∧
+    (∀ x, fromScalar__eZ x = fromScalar x) ∧ (∀ x, fromScalar__rZ x = fromScalar x) ∧
+    (∀ fuel s radix, fromString__eSi fuel s radix = fromString s radix.toNat) ∧
+    (∀ fuel s radix, fromString__rSi fuel s radix = fromString s radix.toNat) ∧
+    (∀ r a, toS64__iE r a = BitVec.ofInt 64 (toS64 a)) ∧ (∀ a, toS64__rE a = BitVec.ofInt 64 (toS64 a)) ∧
+    (∀ r a, Gen.ConvGen.toS32 r a = if (toS32 a).1 then (true, BitVec.ofInt 32 (toS32 a).2) else (false, r)) ∧
+    (∀ a radix, toString__sEi a radix = toStringR a radix.toNat) ∧
+    (∀ a radix, toString__rEi a radix = toStringR a radix.toNat) :=
+  ⟨fromS64_e_gen_eq, fromS64_r_gen_eq, fromS32_e_gen_eq, fromS32_r_gen_eq, fromScalar_e_gen_eq, fromScalar_r_gen_eq,
+   fromString_e_gen_eq, fromString_r_gen_eq, toS64_i_gen_eq, toS64_r_gen_eq, toS32_gen_eq, toString_s_gen_eq,
+   toString_r_gen_eq⟩
+
+/-- translated `fromScalar`: every integer, of any sign and magnitude, converts to its canonical residue -/
+theorem C15_generated_fromScalar (x : Int) :
+    den (fromScalar__rZ x) = (x : F) ∧ (fromScalar__rZ x).toNat < P ∧ (fromScalar__rZ x).toNat = (x % (P : Int)).toNat ∧
+    fromScalar__eZ x = fromScalar__rZ x := by
+  rw [fromScalar_r_gen_eq, fromScalar_e_gen_eq]
+  exact ⟨fromScalar_den x, fromScalar_lt x, fromScalar_toNat x, rfl⟩
+
+/-- translated `fromString`: it returns exactly when the (modelled) parser accepts the numeral, and then the result is the
+    residue of the integer the numeral denotes; a refused numeral (C++: `std::invalid_argument`) is `none` -/
+theorem C15_generated_fromString (fuel : Nat) (s : String) (radix : Int) :
+    (∀ x, parseInt radix.toNat s = some x →
+        fromString__rSi fuel s radix = some (fromScalar x) ∧ fromString__eSi fuel s radix = some (fromScalar x) ∧
+        den (fromScalar x) = (x : F) ∧ (fromScalar x).toNat < P) ∧
+    (parseInt radix.toNat s = none → fromString__rSi fuel s radix = none ∧ fromString__eSi fuel s radix = none) := by
+  rw [fromString_r_gen_eq, fromString_e_gen_eq]
+  unfold fromString
+  constructor
+  · intro x h
+    rw [h]
+    exact ⟨rfl, rfl, fromScalar_den x, fromScalar_lt x⟩
+  · intro h
+    rw [h]
+    exact ⟨rfl, rfl⟩
+
+/-- translated `fromS64` / `fromS32`: the two's complement value converts to its residue -/
+theorem C15_generated_fromS64 (x : BitVec 64) :
+    den (fromS64__ri x) = ((x.toInt : Int) : F) ∧ fromS64__ei x = fromS64__ri x := by
+  rw [fromS64_r_gen_eq, fromS64_e_gen_eq]
+  exact ⟨fromS64_den x, rfl⟩
+
+theorem C15_generated_fromS32 (x : BitVec 32) :
+    den (fromS32__ri x) = ((x.toInt : Int) : F) ∧ fromS32__ei x = fromS32__ri x := by
+  rw [fromS32_r_gen_eq, fromS32_e_gen_eq]
+  exact ⟨fromS32_den x, rfl⟩
+
+/-- translated `toS64`: the signed value of the result is the centred representative of the same field element, whatever
+    `result` held before -/
+theorem C15_generated_toS64 (r a : BitVec 64) :
+    -(((P - 1) / 2 : Nat) : Int) ≤ (toS64__iE r a).toInt ∧ (toS64__iE r a).toInt ≤ (((P - 1) / 2 : Nat) : Int) ∧
+    (((toS64__iE r a).toInt : Int) : F) = den a ∧ toS64__rE a = toS64__iE r a := by
+  rw [toS64_i_gen_toInt, toS64_r_gen_eq, toS64_i_gen_eq]
+  exact ⟨(toS64_range a).1, (toS64_range a).2, toS64_den a, rfl⟩
+
+/-- translated `toS32`: success exactly when the centred value lies in [-2^31, 2^31); then `result` is that value (two's
+    complement); on failure `result` is left as it was -/
+theorem C15_generated_toS32 (r : BitVec 32) (a : BitVec 64) :
+    ((Gen.ConvGen.toS32 r a).1 = true ↔ (-2^31 ≤ (toS64__rE a).toInt ∧ (toS64__rE a).toInt < 2^31)) ∧
+    ((Gen.ConvGen.toS32 r a).1 = true → ((Gen.ConvGen.toS32 r a).2.toInt : Int) = (toS64__rE a).toInt) ∧
+    ((Gen.ConvGen.toS32 r a).1 = false → (Gen.ConvGen.toS32 r a).2 = r) := by
+  rw [toS32_gen_eq, toS64_r_gen_toInt]
+  obtain ⟨s1, s2⟩ := toS32_spec a
+  by_cases h : (toS32 a).1 = true
+  · rw [if_pos h]
+    have hr := s1.mp h
+    refine ⟨⟨fun _ => hr, fun _ => rfl⟩, fun _ => ?_, fun hf => by simp at hf⟩
+    show (BitVec.ofInt 32 (toS32 a).2).toInt = toS64 a
+    rw [s2 h]
+    exact toInt_ofInt32_of_fits _ (by omega)
+  · rw [if_neg h]
+    refine ⟨⟨fun hf => by simp at hf, fun hr => absurd (s1.mpr hr) h⟩, fun hf => by simp at hf, fun _ => rfl⟩
+
+/-- round trips through the translated functions -/
+theorem C15_generated_roundtrip_s64 (x r : BitVec 64)
+    (h : -(((P - 1) / 2 : Nat) : Int) ≤ x.toInt ∧ x.toInt ≤ (((P - 1) / 2 : Nat) : Int)) :
+    toS64__iE r (fromS64__ri x) = x := by
+  apply BitVec.eq_of_toInt_eq
+  rw [toS64_i_gen_toInt, fromS64_r_gen_eq]
+  exact C15_roundtrip_s64 x h
+
+/-- every `int32_t`, including INT32_MIN, survives `fromS32` then `toS32` -/
+theorem C15_generated_roundtrip_s32 (x r : BitVec 32) : Gen.ConvGen.toS32 r (fromS32__ri x) = (true, x) := by
+  rw [toS32_gen_eq, fromS32_r_gen_eq, rt_s32 x]
+  show (true, BitVec.ofInt 32 x.toInt) = (true, x)
+  rw [BitVec.ofInt_toInt]
+
+/-- translated `toString` depends only on the residue class -/
+theorem C15_generated_toString_class (a b : BitVec 64) (radix : Int) (h : den a = den b) :
+    toString__rEi a radix = toString__rEi b radix ∧ toString__sEi a radix = toString__rEi a radix := by
+  rw [toString_r_gen_eq, toString_r_gen_eq, toString_s_gen_eq]
+  exact ⟨C15_toString_class a b radix.toNat h, rfl⟩
+
+/-- non-vacuity: the witness of the former defect D1 (x = -p-1) through the translated function -/
+example : (fromScalar__rZ (-(P : Int) - 1)).toNat = P - 1 := by
+  rw [fromScalar_r_gen_eq, fromScalar_toNat]; decide
+
+end generated
 
 end GoldilocksVerif.C15
